@@ -196,7 +196,7 @@ func sliceShape(c godi.Collection) string {
 }
 
 func TestC20Modules(t *testing.T) {
-	col := evid.New("C20", "module-tree-vs-flat", "module trees (depth<=5, fan-out<=5, repeated and empty names) whose leaves are Add*/Remove/RemoveKeyed entries over a tiny identity pool, nil entries and failing entries (duplicates, invalid options) at arbitrary positions; twin collections: A gets the tree through AddModules, B gets the flattened calls directly and stops at the first error; oracle: same error-or-not, A's error unwraps to ModuleErrors naming exactly the enclosing modules outermost first with the innermost cause classified and worded like B's error, identical Count/ToSlice/Contains*, identical Build verdict, canonical object graph and constructor counts; non-trivial = nesting>=2 with a failing or Remove entry that is not in first position")
+	col := evid.New("C20", "module-tree-vs-flat", "module trees (depth<=5, fan-out<=5, repeated and empty names; now and then at the bottom of a chain of 10-150 modules that contain only the next one) whose leaves are Add*/Remove/RemoveKeyed entries over a tiny identity pool, nil entries and failing entries (duplicates, invalid options) at arbitrary positions; twin collections: A gets the tree through AddModules, B gets the flattened calls directly and stops at the first error; oracle: same error-or-not, A's error unwraps to ModuleErrors naming exactly the enclosing modules outermost first with the innermost cause classified and worded like B's error, identical Count/ToSlice/Contains*, identical Build verdict, canonical object graph and constructor counts; non-trivial = nesting>=2 with a failing or Remove entry that is not in first position")
 	defer col.Flush()
 	rapid.Check(t, propC20Modules(col))
 }
@@ -213,6 +213,14 @@ func propC20Modules(col *evid.Collector) func(rt *rapid.T) {
 			tops = append(tops, genTree(rt, 1, &regs))
 		}
 		sharedPool = nil
+		if rapid.IntRange(0, 5).Draw(rt, "deepChain") == 0 {
+			// "any nesting": one of the trees sits at the bottom of a long chain of modules that
+			// contain nothing but the next one (generated code, a plug-in inside a plug-in ...)
+			i := rapid.IntRange(0, len(tops)-1).Draw(rt, "deepTop")
+			for k := rapid.SampledFrom([]int{10, 31, 32, 33, 40, 70, 150}).Draw(rt, "chainLen"); k > 0; k-- {
+				tops[i] = &mnode{Name: rapid.SampledFrom([]string{"w", "w", "wrap", ""}).Draw(rt, "wname"), Children: []*mnode{tops[i]}}
+			}
+		}
 		if len(pool) > 0 && rapid.IntRange(0, 3).Draw(rt, "reapply") == 0 {
 			// a module that has been applied is applied once more at the very end
 			tops = append(tops, rapid.SampledFrom(pool).Draw(rt, "reapplied"))
